@@ -3,7 +3,7 @@ Spec: retry layer of specs/Failsafe.tla (+ invariants C02_*); retry-centred stac
 configurations and timed outcomes; every behaviour replayed on the real library in virtual time."""
 import vlib, seq
 
-RETRIES = ["rp", "rp0", "rp1", "rp3", "rpH", "rpHE", "rpH2", "rpA", "rpA2", "rpAR", "rpL", "rpU", "rpD", "rpUD", "rpDL"]
+RETRIES = ["rp", "rp0", "rp1", "rp3", "rpH", "rpHE", "rpH2", "rpA", "rpA2", "rpAM", "rpAR", "rpL", "rpU", "rpD", "rpUD", "rpDL"]
 INNER = ["cbB", "cbX", "fbH", "fbX", "bh1", "rl2"]
 OUTS = [seq.out("R0"), seq.out("R1"), seq.out("R0", "E1"), seq.out("R0", "E2"), seq.out("R1", "E3")]      # (the last: a result together with an error)
 OUTS_T = [seq.out("R1", d=1), seq.out("R0", "E1"), seq.out("R0", "E1", d=1), seq.out("R0", "E1", d=2), seq.out("R0", "E2", d=3)]
